@@ -258,6 +258,25 @@ pub fn triple_alphabet() -> Vec<pc::Def> {
     ]
 }
 
+/// Additional letters used by the thorough tier only.
+pub fn triple_alphabet_extra() -> Vec<pc::Def> {
+    use pc::ExpressionType::*;
+    vec![
+        def(Some(v_reg("AX_MID", 2)), COPY, Some(v_reg("BX", 2)), None, None),
+        def(Some(v_reg("RAX", 8)), PIECE, Some(v_reg("EBX", 4)), Some(v_reg("EAX", 4)), None),
+        def(Some(v_reg("AL", 1)), SUBPIECE, Some(v_reg("EBX", 4)), Some(v_const(1, 4)), None),
+        def(Some(v_reg("EBX", 4)), INT_SEXT, Some(v_reg("AH", 1)), None, None),
+        def(Some(v_reg("RAX", 2)), COPY, Some(v_reg("BX", 2)), None, None),
+        def(Some(v_reg("RAX", 8)), INT_ZEXT, Some(v_reg("RAX", 4)), None, None),
+        def(Some(v_reg("CF", 1)), INT_CARRY, Some(v_reg("AL", 1)), Some(v_reg("AH", 1)), None),
+        def(Some(v_reg("AH", 1)), LOAD, Some(v_const(0x1b1, 8)), Some(v_reg("RBX", 8)), None),
+        def(Some(v_reg("RAX_HI", 4)), LOAD, Some(v_const(0x1b1, 8)), Some(v_ram(0x2008, 8)), None),
+        def(Some(v_tmp("$U2", 2)), INT_ADD, Some(v_reg("AX", 2)), Some(v_reg("AX_MID", 2)), None),
+        def(Some(v_reg("AX", 2)), COPY, Some(v_tmp("$U2", 2)), None, None),
+        def(Some(v_reg("RBX", 8)), INT_SEXT, Some(v_reg("RAX_HI", 4)), None, None),
+    ]
+}
+
 fn jmp(m: pc::JmpType, goto: Option<pc::Label>, call: Option<pc::Call>, cond: Option<pc::Variable>) -> pc::Jmp {
     pc::Jmp { mnemonic: m, goto, call, condition: cond, target_hints: None }
 }
@@ -337,12 +356,24 @@ pub fn all_cases(thorough: bool) -> Vec<BlockCase> {
         cases.push(BlockCase { label: format!("pair #{i} {:?};{:?}", a.rhs.mnemonic, b.rhs.mnemonic), defs: vec![a, b], jmps: vec![] });
     }
     cases.extend(jump_cases(true));
-    let alpha = triple_alphabet();
+    let mut alpha = triple_alphabet();
+    let quick_k = alpha.len();
+    if thorough {
+        alpha.extend(triple_alphabet_extra());
+    }
     let k = alpha.len();
     let n = if thorough { k * k * k } else { 0 };
     for i in 0..n {
         let (a, b, c) = (i / (k * k), (i / k) % k, i % k);
         cases.push(BlockCase { label: format!("triple {a},{b},{c}"), defs: vec![alpha[a].clone(), alpha[b].clone(), alpha[c].clone()], jmps: vec![] });
+    }
+    if thorough {
+        // sequences of four over the base alphabet
+        let q = quick_k;
+        for i in 0..q * q * q * q {
+            let idx = [i / (q * q * q), (i / (q * q)) % q, (i / q) % q, i % q];
+            cases.push(BlockCase { label: format!("quad {idx:?}"), defs: idx.iter().map(|x| alpha[*x].clone()).collect(), jmps: vec![] });
+        }
     }
     if !thorough {
         // quick: pairs from the triple alphabet
